@@ -3,18 +3,15 @@
 package zzverif
 
 import (
-	"runtime"
-	"time"
-	"context"
 	"crypto/ecdsa"
-	"fmt"
 	"encoding/json"
+	"fmt"
 	"math/big"
 	"os"
+	"runtime"
+	"time"
 
-	"github.com/alephium/wormhole-fork/node/pkg/supervisor"
 	"github.com/ethereum/go-ethereum/crypto"
-	"go.uber.org/zap"
 )
 
 var assignment map[string][]uint64
@@ -231,21 +228,6 @@ func TempDir() string {
 		panic(err)
 	}
 	return d
-}
-
-// Supervised runs f with a context that belongs to a real supervisor tree (handlers call supervisor.Logger(ctx)).
-func Supervised(f func(ctx context.Context)) {
-	done := make(chan interface{}, 1)
-	ctx, cancel := context.WithCancel(context.Background())
-	defer cancel()
-	supervisor.New(ctx, zap.NewNop(), func(ctx context.Context) error {
-		defer func() { done <- recover() }()
-		f(ctx)
-		return nil
-	}, supervisor.WithPropagatePanic)
-	if r := <-done; r != nil {
-		panic(r)
-	}
 }
 
 // Symbolic reports whether the harness runs inside the symbolic executor (false natively).
